@@ -229,9 +229,9 @@ pub fn run(rep: &mut Report) {
         g1(NOT, 0), g1(NOT, 1), g1(NOT, 2), g1(HAD, 0), g1(HAD, 1), g1(HAD, 2), g1(T, 0), g1(Z, 1), Gate::new(CNOT, vec![0, 1]), Gate::new(CNOT, vec![1, 2]),
     ];
     let fams: Vec<(&str, usize, Vec<Gate>, usize)> = if quick {
-        vec![("K(3,3,A_ccz)", 3, ccz3.clone(), 3), ("K(2,3,A_ct+swap)", 2, swap2.clone(), 3), ("K(3,2,A_full)", 3, alpha_full(3), 2), ("K(3,4,A_cnot)", 3, alpha_cnot(3), 4), ("K(2,2,A_tol)", 2, alpha_tol(2), 2)]
+        vec![("K(3,3,A_ccz)", 3, ccz3.clone(), 3), ("K(2,3,A_ct+swap)", 2, swap2.clone(), 3), ("K(3,2,A_full)", 3, alpha_full(3), 2), ("K(3,4,A_cnot)", 3, alpha_cnot(3), 4), ("K(2,2,A_tol)", 2, alpha_tol(2), 2), ("K(3,4,A_pp)", 3, alpha_pp(3), 4), ("K(4,2,A_pp)", 4, alpha_pp(4), 2)]
     } else {
-        vec![("K(3,4,A_ccz)", 3, ccz3.clone(), 4), ("K(2,4,A_ct+swap)", 2, swap2.clone(), 4), ("K(3,3,A_ct)", 3, alpha_ct(3), 3), ("K(3,2,A_full)", 3, alpha_full(3), 2), ("K(2,3,A_full)", 2, alpha_full(2), 3), ("K(3,6,A_cnot)", 3, alpha_cnot(3), 6), ("K(4,4,A_cnot)", 4, alpha_cnot(4), 4), ("K(2,3,A_tol)", 2, alpha_tol(2), 3)]
+        vec![("K(3,4,A_ccz)", 3, ccz3.clone(), 4), ("K(2,4,A_ct+swap)", 2, swap2.clone(), 4), ("K(3,3,A_ct)", 3, alpha_ct(3), 3), ("K(3,2,A_full)", 3, alpha_full(3), 2), ("K(2,3,A_full)", 2, alpha_full(2), 3), ("K(3,6,A_cnot)", 3, alpha_cnot(3), 6), ("K(4,4,A_cnot)", 4, alpha_cnot(4), 4), ("K(2,3,A_tol)", 2, alpha_tol(2), 3), ("K(3,5,A_pp)", 3, alpha_pp(3), 5), ("K(4,4,A_pp)", 4, alpha_pp(4), 4)]
     };
     for (name, q, alpha, d) in fams {
         let t0 = Instant::now();
